@@ -334,6 +334,53 @@ pub fn nullable_tail_family(rng: &mut Rng) -> String {
     format!("%start S\n%%\n{}\n", rules.join("\n"))
 }
 
+/// cascading merges: rules `X_j: 'c'` reached directly (`'o' X_j t`), through wrappers `W_j: 'x' X_j`
+/// (`'m' W_j t`) and through wrappers behind a delay (`'n' 'y'… W_j t`). States with the same core are
+/// merged when their terminator maps allow it; a delayed context merged into an already processed
+/// state changes that state's successor, which may then no longer be compatible with the state it
+/// was merged with before. Terminators come from a small pool so that maps coincide, overlap and clash.
+pub fn cascade_family(rng: &mut Rng) -> String {
+    let m = rng.range(2, 3);
+    let pool = m + rng.range(1, 3);
+    let mut alts: Vec<String> = Vec::new();
+    let mut ctx = 0;
+    let mut inj = |rng: &mut Rng| -> Vec<usize> {
+        let mut p: Vec<usize> = (0..pool).collect();
+        for a in (1..p.len()).rev() {
+            let b = rng.below(a + 1);
+            p.swap(a, b);
+        }
+        p[..m].to_vec()
+    };
+    for _ in 0..rng.range(1, 2) {
+        let map = inj(rng);
+        for j in 0..m {
+            alts.push(format!("'o{}' X{} 'q{}'", ctx, j, map[j]));
+        }
+        ctx += 1;
+    }
+    for _ in 0..rng.range(1, 2) {
+        let map = inj(rng);
+        for j in 0..m {
+            alts.push(format!("'m{}' W{} 'q{}'", ctx, j, map[j]));
+        }
+        ctx += 1;
+    }
+    for _ in 0..rng.range(1, 2) {
+        let map = inj(rng);
+        let delay = vec!["'y'"; rng.range(1, 3)].join(" ");
+        for j in 0..m {
+            alts.push(format!("'n{}' {} W{} 'q{}'", ctx, delay, j, map[j]));
+        }
+        ctx += 1;
+    }
+    let mut s = format!("%start S\n%%\nS: {};\n", alts.join("\n | "));
+    for j in 0..m {
+        s.push_str(&format!("W{}: 'x' X{};\nX{}: 'c';\n", j, j, j));
+    }
+    s
+}
+
 pub fn build(text: &str) -> Result<YaccGrammar<u32>, String> {
     YaccGrammar::new(YaccKind::Original(YaccOriginalActionKind::GenericParseTree), text)
         .map_err(|e| format!("{:?}", e.iter().map(|x| x.to_string()).collect::<Vec<_>>()))
